@@ -233,7 +233,7 @@ Proof. unfold numeric_first, is_digit, lower. destruct ((65 <=? b) && (b <=? 90)
 Lemma need_pipes_false_resolves c (name : list byte) : need_pipes name = false ->
   resolve_token (case_name (p_case c) name) = OSym (case_name (p_case c) name).
 Proof.
-  unfold need_pipes. intros H. apply orb_false_iff in H as [H _]. apply orb_false_iff in H as [_ H].
+  unfold need_pipes. intros H. apply orb_false_iff in H as [H _]. apply orb_false_iff in H as [H _]. apply orb_false_iff in H as [_ H].
   destruct name as [|b r]; [destruct (p_case c); reflexivity|].
   apply resolve_symbolic. rewrite map_lower_case.
   destruct (numeric_first b) eqn:Ef; [exact H|]. cbn [map].
@@ -242,6 +242,9 @@ Proof.
 Qed.
 Lemma need_pipes_false_dot (name : list byte) : need_pipes name = false -> name <> [46].
 Proof. intros H ->. vm_compute in H. discriminate H. Qed.
+
+Lemma need_pipes_false_nil (name : list byte) : need_pipes name = false -> is_nil_tok name = false.
+Proof. unfold need_pipes. intros H. apply orb_false_iff in H as [_ H]. exact H. Qed.
 
 Lemma pipe_ok_closed b : pipe_ok_byte b = true /\ b < 128 -> (pipe_ok_byte (lower b) = true /\ lower b < 128) /\ (pipe_ok_byte (upper b) = true /\ upper b < 128).
 Proof.
@@ -257,10 +260,10 @@ Lemma bare_reads c (s : list byte) : need_pipes s = false -> bare_ok s = true ->
             case_name (p_case c) s <> [].
 Proof.
   unfold bare_ok. intros Hnp H. pose proof (need_pipes_false_resolves c s Hnp) as Hres.
-  pose proof (need_pipes_false_dot s Hnp) as Hdot. apply andb_true_iff in H as [H Hnil].
+  pose proof (need_pipes_false_dot s Hnp) as Hdot. pose proof (need_pipes_false_nil s Hnp) as Hnil.
   apply andb_true_iff in H as [Hshape Ht].
   destruct s as [|b r]; [discriminate Hshape|]. apply andb_true_iff in Hshape as [Hf Hr].
-  apply negb_true_iff in Ht, Hnil.
+  apply negb_true_iff in Ht.
   set (w := case_name (p_case c) (b :: r)).
   assert (Htok : exists a rest, w = a :: rest /\ token_first a = true /\ forallb token_byte rest = true).
   { assert (HrL : forallb token_byte (map lower r) = true).
